@@ -25,7 +25,11 @@ func VerifC19Consumers() {
 	cfg.Style.Colors.Highlight = "#0d7d00"
 	cfg.Style.Colors.Code = "#4b4b4b"
 	hook := []string{"prog", "%url", "%mimetype"}
-	cfg.Media.Hook = hook[:verifrt.Choice("hooklen", 4)]
+	cfg.Media.Hook = append([]string{}, hook[:verifrt.Choice("hooklen", 4)]...)
+	for i := range cfg.Media.Hook {
+		// any field may be blank
+		cfg.Media.Hook[i] = []string{cfg.Media.Hook[i], "", " "}[verifrt.Choice("blank", 3)]
+	}
 	cfg.Network.Context = int(verifrt.Int64("preload_amount"))
 	cfg.Network.Timeout = time.Duration(verifrt.Int64("timeout_seconds"))
 	cfg.Network.CacheSize = int(verifrt.Int64("cache_size"))
